@@ -1,0 +1,30 @@
+//go:build verif
+
+package service
+
+import (
+	"io"
+	"net"
+)
+
+// Verification hooks (build tag verif); not part of the library API.
+
+// VerifOnStopped, when set, is called at the end of every connection
+// teardown (service.stop) with the connection the service was created for.
+var VerifOnStopped func(conn io.Closer)
+
+func verifStopped(conn io.Closer) {
+	if f := VerifOnStopped; f != nil {
+		f(conn)
+	}
+}
+
+// VerifServe runs the broker's connection handler on an already established
+// connection (what ListenAndServe does for each accepted connection).
+func (svr *Server) VerifServe(conn net.Conn) error {
+	if err := svr.checkConfiguration(); err != nil {
+		return err
+	}
+	_, err := svr.handleConnection(conn)
+	return err
+}
